@@ -6,7 +6,8 @@ import os
 V = "/verif"
 PY = "/venv/bin/python"
 
-COMMON_NOTE = ("Static: parses /repo/spec_classes (and the stdlib source of the inherited ABC mixins) on every run; never imports or runs "
+COMMON_NOTE = ("Thorough tier = quick + all collection families + checker self-test (catalogued breaking variants of this property must be "
+               "reported, catalogued behaviour-preserving variants must keep the verdict; each on a scratch copy of the current tree). Static: parses /repo/spec_classes (and the stdlib source of the inherited ABC mixins) on every run; never imports or runs "
                "the package; no solver. Trusted base: the abstract interpreter in /verif/sa (finite provenance domain, forked-and-merged "
                "paths, loops unrolled <=2), its models of builtins, stdlib ast. User callbacks are opaque (may raise / alias, do not mutate "
                "library state). Value-level outcomes are not decided.")
@@ -63,7 +64,8 @@ CLAIMS = {
             "class only, after all attribute writes / parent constructors / overflow store and before the initialising flag is removed; "
             "guards of every attribute write in the local loop (init-enabled, owned here, not the overflow attribute); parent constructors "
             "over the whole MRO with forwarded keywords popped; defaults looked up relative to the instance's class and tested by identity, "
-            "never truthiness; exhaustive truth table of the overflow filter; builder chain of the generated signature.",
+            "never truthiness; exhaustive truth table of the overflow filter (comprehension or loop form); builder chain of the generated "
+            "signature; __post_init__ hook and nearest-ancestor default resolution.",
             "event-order and guard analysis by abstract interpretation + finite truth tables over condition ASTs"),
     "C10": ("Structural clauses only (reflexivity/symmetry/transitivity over values and repr text are not claimed): forall-loop polarity "
             "of __eq__ (only `return False` inside the loop, every True path carries an equality verdict for each visited compare-enabled "
@@ -93,7 +95,8 @@ CLAIMS = {
             "list/index updates on every normal path; no failure point after the first store write in single-element operations "
             "(__setitem__/__delitem__/insert/append/pop/remove); in-place slot assignment for replacement; _validate_item table; duplicate "
             "rejection before writing; reverse overridden; key function forwarded by every type(self)(...) construction; key views read "
-            "only the key index.",
+            "only the key index; decision table of __contains__ (key present or element is/== value); no truthiness test on an item "
+            "looked up in the key index.",
             "paired-update / write-then-raise analysis by abstract interpretation over own + inherited mixin bodies, who-may-write AST rules"),
     "C14": ("Structural clauses only (operation sequences against a dict model are not claimed): exhaustive decision table of add() "
             "(validate first; ValueError iff enforce, key present and items differ, with nothing written; otherwise exactly one store); "
@@ -111,19 +114,22 @@ CLAIMS = {
             "not in the class's own __dict__ or __spec_class prefix); every class-state write of the package is an enumerated site with its "
             "guard; registry contents and naming (4 scalar / 4 element per family / 3 top-level; element family iff collection; "
             "__spec_class_* always registered); private-name filters at both sources; singular fallback and collision loop over all "
-            "attributes.",
+            "attributes; decision table of inherit_annotations (attrs_skip tested by identity, not truthiness); objects registered under "
+            "two names are built methods, not lazy descriptors.",
             "decision-table extraction + who-may-write / registry-exhaustiveness AST rules"),
     "C17": ("The generator is analysed, not its exec output: builder chain vs implementation signature for the 19 helpers and __init__ "
             "(names, kinds, defaults, **kw for virtual keywords, _inplace/_if keyword-only False/True), nested-keyword source type per "
             "helper family, exhaustive truth table of the with_spec_attrs_for filter, validate_attrs before implementation in the exec "
             "template and exact membership test, per-kind tables of the call/definition string generators over all 5 parameter kinds, "
-            "advertised signature composition, parameter liveness.",
+            "advertised signature composition, parameter liveness (incl. pairs of keyword groups of mutate_value both taking effect on some "
+            "path, and a call-independent constructor-argument memo).",
             "cross-checking of sibling artefacts (builder chain, def signature, exec template) over the AST; finite truth tables"),
     "C19": ("Schedules are not enumerated; decided is the lock discipline that makes them irrelevant: every lazy trigger reaches "
             "bootstrap() only inside `with <per-class lock>` (the same lock as the __new__ wrapper) with a re-check of the bootstrapped "
             "state dominating the call; placeholders are given the locked trigger; the wrapper tests its marker and installs/removes "
             "__new__ only inside the lock, after triggering bootstrap and before delegating; no foreign spec-class lookups under the lock; "
-            "method descriptors dissolve onto the registering class with an idempotent value.",
+            "method descriptors dissolve onto the registering class with an idempotent value; the metadata object is not written after it "
+            "is published on the class; the inherited __new__ is resolved through the MRO.",
             "lockset / double-checked-locking structural analysis over the AST"),
 }
 
